@@ -364,10 +364,12 @@ C["C11"]={"jobs":c11,"assumptions":["goroutines are engine threads; a context sw
 
 COAL_ASSUME=["the normalisation tables come from a table image regenerated natively from the current normalizations.yaml on every run (the YAML decoder itself is trusted)",
   "messages are built by a harness-side constructor with pre-parsed Data()/Tags() (C09) or through the real Parse with concrete text (C15)","field values are distinct concrete tokens (they are only moved, never inspected); the st_mode of the selected PATH record is symbolic (all 2^16 values)"]
-c09=[job("file-object","aucoalesce","VH_FileObject",["C09/"],{"nsys":3,"maxpaths":2},Q,bounds="SYSCALL (open|rename|unlink) + 1..2 PATH records, the selected one with a symbolic 16-bit st_mode (all 65536 values) and nametype NORMAL|CREATE|DELETE, the other PARENT"),
+c09=[job("file-object-any-nametype","aucoalesce","VH_FileObject",["C09/"],{"nsys":5,"maxpaths":3,"nametypes":5},Q,bounds="5 syscalls + 1..3 PATH records, one with a symbolic st_mode and any of the five nametypes (so also groups whose PATH records are all PARENT/UNKNOWN), the others PARENT"),
+     job("file-object","aucoalesce","VH_FileObject",["C09/"],{"nsys":3,"maxpaths":2},Q,bounds="SYSCALL (open|rename|unlink) + 1..2 PATH records, the selected one with a symbolic 16-bit st_mode (all 65536 values) and nametype NORMAL|CREATE|DELETE, the other PARENT"),
      job("file-object-5sys-3paths","aucoalesce","VH_FileObject",["C09/"],{"nsys":5,"maxpaths":3},T,bounds="5 syscalls (incl. mknod, mount) + 1..3 PATH records, symbolic st_mode"),
      job("single-record","aucoalesce","VH_Conservation",["C09/"],{"shape":0,"named":1},T,bounds="one record of 6 types with every subset of a 16-key pool"),
      job("single-record-each-type","aucoalesce","VH_Conservation",["C09/"],{"shape":2},Q,bounds="one record of every type the normalisation table knows, carrying every key that type's normalisations name (subject/object/how/source_ip/has_fields) plus 7 common keys, minus at most one key; values plain tokens or IP literals"),
+     job("single-record-boundary-ids","aucoalesce","VH_Conservation",["C09/"],{"shape":0,"named":1,"boundaryvals":1},Q,bounds="one record of 6 types with every subset of {ses, auid, uid, gid, pid, ppid, result}, one of the ids carrying 4294967295 / -1 / 0 / unset / 4294967294"),
      job("single-record-anytype","aucoalesce","VH_Conservation",["C09/"],{"shape":0,"named":0,"npool":6},T,bounds="one record of a symbolic 16-bit type (EOE excluded: not an event on its own) with every subset of a 6-key pool (result, addr, acct, exe, syscall, x1)",max_paths=400000),
      job("groups-2extra","aucoalesce","VH_Conservation",["C09/"],{"shape":1,"maxextra":2,"execve_extra":1},Q,bounds="SYSCALL first / other record first / no SYSCALL, plus 0..2 further records from {PATH, EXECVE, SOCKADDR, CWD/PROCTITLE/AVC/BPRM_FCAPS with optional key collision, a record whose Data() fails}, in any order"),
      job("groups-3extra","aucoalesce","VH_Conservation",["C09/"],{"shape":1,"maxextra":3,"execve_extra":1},T,bounds="as above with 0..3 further records")]
@@ -382,6 +384,7 @@ c15.append(job("concurrent-2",  "aucoalesce","VH_ConcurrentResolve",["C15/"],{"t
 c15.append(job("concurrent-2-expired",  "aucoalesce","VH_ConcurrentResolve",["C15/"],{"threads":2,"preemptions":2,"expired":1},Q,no_native=True,bounds="as concurrent-2 with caches whose entries are out of date as soon as they are stored (negative expiration): every lookup refreshes"))
 c15.append(job("concurrent-2-nonsyscall",  "aucoalesce","VH_ConcurrentResolve",["C15/"],{"threads":2,"preemptions":2,"groupbase":2},Q,no_native=True,bounds="as concurrent-2 with the two groups whose first record is not a SYSCALL record (USER_LOGIN, AVC): record-type normalisation lookups race"))
 c15.append(job("concurrent-3",  "aucoalesce","VH_ConcurrentResolve",["C15/"],{"threads":3,"preemptions":2},T,no_native=True,bounds="3 goroutines, at most 2 preemptions"))
+c15.append(job("file-object-any-nametype","aucoalesce","VH_FileObject",["C15/"],{"nsys":5,"maxpaths":3,"nametypes":5},Q,bounds="never panics: SYSCALL (open|rename|unlink|mknod|mount) + 1..3 PATH records with a symbolic st_mode and every nametype, incl. groups whose PATH records are all PARENT/UNKNOWN"))
 C["C15"]={"jobs":c15,"assumptions":COAL_ASSUME,"outside":["arbitrary message text (C05 covers the parser's totality)","ResolveIDs against real user databases"]}
 
 RTF=["pid","uid","gid","auid","exit","msgtype","arch","path","exe","key","perm","filetype","a0","success","inode","subj_user","obj_uid","dir",
